@@ -565,3 +565,26 @@ Proof. exact doc_wf_example. Qed.
 Example C07_doc_wf_guards_hold :
   doc_wf C07_mt3 C07_doc3 = true /\ doc_wf [] C07_doc_prune = true /\ doc_wf [] C07_doc_keyalias = true.
 Proof. vm_compute. repeat split; reflexivity. Qed.
+
+(* ==================================================================== *)
+(* "each at most once" in EVERY mode: all four alias-inclusion modes (the
+   exclusion modes included), every key mode, expansion on or off, any document
+   with anchors / aliases / merge keys - refnames off.  (C07_once needed
+   [transparent] and expansion off.) *)
+From YP Require Import PathsOnce.
+
+Theorem C07_once_any_mode :
+  forall lit re_search (mt : mtable) (tm : terms) (sp : sep) (o : opts) (d : node) (res : list hit),
+    o_anchors o = false -> nodup_keys d ->
+    search_doc lit re_search mt tm sp o d = Ok res -> NoDup (map h_loc res).
+Proof. exact once_any_mode. Qed.
+Print Assumptions C07_once_any_mode.
+
+Example C07_once_any_mode_hyps :
+  o_anchors C07_o_none = false /\ nodup_keys C07_doc3 /\
+  exists res, search_doc C07_lit0 C07_re0 C07_mt3 C07_tm_a Dot C07_o_none C07_doc3 = Ok res /\ res <> [].
+Proof.
+  split; [reflexivity|]. split.
+  - simpl. repeat split; repeat constructor; simpl; intuition discriminate.
+  - eexists. split; [vm_compute; reflexivity | discriminate].
+Qed.
